@@ -107,11 +107,11 @@ Future.methods["set_exception"] = amethod(
     ensures=lambda c, self, exception: c.And(flag(self, "is_done"), self.stored_exc == exception),
     emits=lambda c, ctx, self, exception: ctx.emit("set_exception", self, exception), has_events=True)
 Future.methods["set_result"] = amethod(
-    "Future.set_result", {"self": Future, "result": ANYT},
-    requires=lambda c, self, result: {"future-not-done": c.Not(flag(self, "is_done"))},
-    writes=lambda c, self, result: [(self, "is_done"), (self, "stored_res"), (self, "stored_exc")],
-    ensures=lambda c, self, result: c.And(flag(self, "is_done"), self.stored_res == result, self.stored_exc == None),
-    emits=lambda c, ctx, self, result: ctx.emit("set_result", self, result), has_events=True)
+    "Future.set_result", {"self": Future, "value": ANYT},
+    requires=lambda c, self, value: {"future-not-done": c.Not(flag(self, "is_done"))},
+    writes=lambda c, self, value: [(self, "is_done"), (self, "stored_res"), (self, "stored_exc")],
+    ensures=lambda c, self, value: c.And(flag(self, "is_done"), self.stored_res == value, self.stored_exc == None),
+    emits=lambda c, ctx, self, value: ctx.emit("set_result", self, value), has_events=True)
 Future.methods["__await__"] = amethod(
     "Future.__await__", {"self": Future},
     doc="await fut: returns the result, or raises the stored exception object itself; an await may also be cancelled (CancelledError)",
